@@ -446,14 +446,14 @@ example : ∀ a b : Pt Int, goGeo.ptEq a b = true →
   intro a b h; rw [goGeo_ptEq] at h ⊢; subst h; rfl
 
 /-- `replace` with callbacks that replace nothing returns the path unchanged. -/
-theorem replace_none (G : Geo α) (cs : RPath α) : replace G (fun _ _ => none) cs = cs := by
-  have key : ∀ (n : Nat) (acc : RPath α) (todo : List (Cmd α)),
-      replaceGo G (fun _ _ => none) n acc todo = todo.reverse ++ acc := by
+theorem replace_none (G : Geo α) (cs : RPath α) : replace G (fun _ _ _ => none) cs = cs := by
+  have key : ∀ (n j : Nat) (acc : RPath α) (todo : List (Cmd α)),
+      replaceGo G (fun _ _ _ => none) n j acc todo = todo.reverse ++ acc := by
     intro n
     induction n with
-    | zero => intro acc todo; rfl
+    | zero => intro j acc todo; rfl
     | succ n ih =>
-      intro acc todo
+      intro j acc todo
       cases todo with
       | nil => rfl
       | cons c rest =>
